@@ -4,7 +4,7 @@ from ..norm import n, P, C, V, ANY, match, find_all, binop
 from . import layout, common, cmpmodel, c05, c09
 
 ID = "C15"
-CONFIGS = {"quick": ["K0", "K9"], "thorough": ["K0", "K9", "K11", "K1", "K19", "K21"]}
+CONFIGS = {"quick": ["K0", "K7", "K9"], "thorough": ["K0", "K7", "K9", "K11", "K1", "K2", "K19", "K21"]}
 META = {
     "explanation": (
         "Static analysis (MIR paths, resolved callees per instantiation, constant evaluator).  In the strict "
